@@ -79,11 +79,21 @@ func opCase(name string, params []interface{}, tags ...string) Case {
 	for i, x := range params {
 		vp[i] = x
 	}
-	v, err, ok := eval.VerifBuiltin(name, vp)
+	var v eval.Value
+	var err error
+	ok, pan := true, interface{}(nil)
+	func() {
+		defer func() { pan = recover() }()
+		v, err, ok = eval.VerifBuiltin(name, vp)
+	}()
 	if !ok {
 		panic("no builtin " + name)
 	}
 	obs := coqRes(v, err)
+	if pan != nil {
+		// the operator panicked: an outcome the model never has (compared as a mismatch, reported with the input)
+		obs, v, err = "Err (EOther 4242)", nil, fmt.Errorf("PANIC: %v", pan)
+	}
 	term := fmt.Sprintf("(%s, %s, %s)", coqStr(name), coqValues(params), obs)
 	res := fmt.Sprint(v)
 	if err != nil {
